@@ -27,28 +27,28 @@ NA = {
 CHECKS = {
     "C12": {
         "category": "exploration",
-        "text": "Seeded search over workloads x task schedules x faults: verde's real dask.delayed graphs / client submissions are executed by a simulated executor (baton-passed real threads pre-empted at every verde function entry; uniform and PCT strategies; 1-8 workers; worker kill + retry, duplicate execution, pickling transport, concurrent callers sharing one estimator), and every returned score is compared with an independent reference model (own splits, fresh estimator per split fitted on training rows only, 10-line numpy metrics), serial == delayed == client, re-execution idempotence, input estimator and argument arrays untouched, SplineCV scores/argmax/refit, train_test_split alignment/partition/blocks. Sampling, not enumeration: a clean batch is evidence, not proof; that is the right level because the schedule space of 5-26 tasks x ~100 yield points each is far beyond enumeration.",
+        "text": "Seeded search over workloads x task schedules x faults: verde's real dask.delayed graphs / client submissions are executed by a simulated executor (baton-passed real threads pre-empted at every verde function entry; uniform and PCT strategies; 1-8 workers; worker kill + retry, duplicate execution, pickling transport; lazy scores computed all at once, one by one in any order, twice, or merged with a second evaluation that differs only in estimator, data or splits; the caller re-parameterising its estimator after the call; concurrent callers sharing one estimator; futures collected in completion order through simulated as_completed/wait), and every returned score is compared with an independent reference model (own splits from eleven kinds of cross-validator incl. buffer-reusing and instance-seeded ones, fresh estimator per split fitted on training rows only, numpy metrics incl. unnormalised and bare-callable scorers), serial == delayed == client, re-execution idempotence, input estimator untouched, SplineCV scores / argmax over the (mindist, damping) grid / refit with weights and force_coords, train_test_split alignment/partition/blocks. Thorough tier adds crash-point enumeration (every yield point of a small lazy cross-validation as the kill instant). Sampling, not enumeration, of schedules: a clean batch is evidence, not proof; that is the right level because the schedule space of 5-26 tasks x ~100 yield points each is far beyond enumeration.",
         "design_ref": "DESIGN.md section 3 (C12), section 2",
         "note": "Trusted: fit/predict of the individual estimators (C01-C04), dask's graph construction, the simulator itself (determinism self-test: bin/check C12 --selftest determinism). Stubbed: dask executors and distributed.Client. Pre-emption only at verde function entries; BLAS single-threaded.",
         "technique": "deterministic simulation: seeded baton scheduler over dask.delayed/client tasks with kill/retry, duplicate and pickling faults, refinement against a reference model",
     },
     "C19": {
         "category": "fault_enumeration",
-        "text": "Every generated Surfer file is loaded through a simulated disk/stream; the in-flight fault position is enumerated exhaustively over every read call of the load x {I/O error, early EOF (torn/lost write), interrupt}, stored-byte faults (truncation, flipped/dropped/duplicated characters, dropped/duplicated/swapped lines, re-wrapped rows, every single header-field corruption) are drawn from the seed, multi-operation histories reuse half-consumed handles. An independent parser classifies the delivered bytes MUST-LOAD / MUST-REFUSE / EITHER and the result is compared cell by cell; the disk's handle table must be empty after every operation. File contents are sampled, in-flight fault positions are enumerated.",
+        "text": "Every generated Surfer file (2-7 x 2-8, occasionally up to 60 x 80; nine number formats; blanks; CRLF; float64/float32) is loaded through a simulated disk/stream by str path, pathlib path and open handle; the in-flight fault position is enumerated exhaustively over every read call of the load x {I/O error, early EOF (torn/lost write), interrupt} plus open() failures and interrupts at each verde call point, stored-byte faults (truncation, flipped/dropped/duplicated characters, dropped/duplicated/swapped lines, re-wrapped rows, ragged rows, every single header-field corruption) are drawn from the seed, multi-operation histories re-use half-consumed handles. An independent parser classifies the delivered bytes MUST-LOAD / MUST-REFUSE / EITHER (wrapped-row layouts, grey bands, non-strict tokens) and the result is compared cell by cell with coordinates, blanks and attributes; the disk's handle table must be empty after every operation. File contents are sampled, in-flight fault positions are enumerated.",
         "design_ref": "DESIGN.md section 3 (C19), section 2.6",
         "note": "Trusted: numpy.loadtxt and xarray (real code, reading from the stub); the reference parser's strict decimal grammar (tokens outside it are EITHER, never a demand). Stubbed: files/open/file objects (SimDisk/SimFile) via the module-level open name in verde.io.",
         "technique": "deterministic simulation of the file system and stream: exhaustive in-flight fault positions per file, seeded stored-byte corruption, reference parser as oracle",
     },
     "C20": {
         "category": "exploration",
-        "text": "Seeded histories of 6-16 operations over a universe of live estimator objects, a pool of read-only datasets and the process-global numpy RNG: fits on changing datasets, rejected fits (one planted inconsistency), fits interrupted at an arbitrary verde call (KeyboardInterrupt/MemoryError model), predict/filter/grid/score, verbatim repeats, clone / set_params / pickle copies, seeded random calls under global-RNG perturbation, stateless public functions. After every operation: arguments byte-identical, repeat == first, history-laden object == fresh model fitted to the last completed dataset, earlier results unaliased, not-fitted and inconsistent inputs raise. Thorough tier enumerates the interrupt position over every call point of each fit/filter. Histories are sampled.",
+        "text": "Seeded histories of 6-16 operations over a universe of live estimator objects, a pool of read-only or writable datasets (sometimes all of one size, sometimes large, C/Fortran/transposed layouts) and the process-global numpy RNG: fits on changing datasets, rejected fits (one planted inconsistency incl. a third-coordinate mismatch), fits interrupted at an arbitrary verde call (KeyboardInterrupt/MemoryError model), predict/filter/grid/profile/scatter/score each followed by the same call on other points of the same shape, the caller overwriting the arrays it was given back, verbatim repeats, clone (also fitted, to show independence), set_params(**get_params()), set_params(<new value>) followed by a refit, seeded random calls and re-used splitter objects under global-RNG perturbation, stateless public functions with array-valued regions/spacings/centres, ~50 must-reject calls. After every operation: arguments byte-identical, repeat == first, history-laden object == fresh model fitted to the last completed dataset (VectorSpline2D's documented memory modelled, not read back), earlier results unaliased, not-fitted and inconsistent inputs raise. Thorough tier enumerates the interrupt position over the call points of a fit. Histories are sampled.",
         "design_ref": "DESIGN.md section 3 (C20), section 2.5",
         "note": "Trusted: numpy/scipy/sklearn numerics; the fresh-instance reference model uses the same estimator classes on a new object. The interrupt model raises only at verde function entries.",
         "technique": "deterministic simulation of call histories with interrupt/rejection fault injection and global-RNG perturbation, checked against a history-free reference model",
     },
     "C06": {
         "category": "exploration",
-        "text": "History dimension of C06 only: seeded histories (fit on changing datasets, interrupted fits landing between steps, fits rejected by a later step, predict, filter, clone, repeat) on one composite (Chain/Vector/nested, length 1-4) are checked operation by operation against a 25-line reference model that threads (coordinates, data, weights) through fresh clones of the steps without using Chain/Vector code. Inputs/configurations are sampled only incidentally; the statement's relations serve as per-operation invariants.",
+        "text": "History dimension of C06 only: seeded histories (fit and filter on changing datasets, interrupted fits landing between steps, fits on NaN-poisoned data rejected by whichever step first cannot digest it, predict, clone) on ONE composite (Chain/Vector/nested, 1-4 steps, unique or repeated step names) are checked operation by operation against a small reference model that threads (coordinates, data, weights) through fresh clones of the steps without using Chain/Vector code: composite prediction == sum of the parts, every step taken out of the composite == the model's clone fitted on what the previous step returned, filter's output contract, prediction + residual == data, composite raises iff the parts raise, and for separable multi-component composites component i == the scalar composite on data[i], weights[i] alone. Inputs/configurations are sampled only incidentally; the statement's relations serve as per-operation invariants. Thorough tier enumerates interrupt positions.",
         "design_ref": "DESIGN.md section 3 (C06)",
         "note": "Trusted: the individual steps' fit/predict/filter (their own properties); tolerance 1e-9 of data scale (calibrated: bit-identical). Only the history/interrupt dimension is decided by this technique.",
         "technique": "deterministic simulation of call histories on a composite with interrupt injection between steps, refinement against a reference chain model",
